@@ -7,14 +7,16 @@ parent, time window, proposer signature for the slot) + the context-free flags (
 transaction validity, coinbase shape/amounts); `settle`/`ledgerReorg` = the attach-time spend
 rules of `reorganizeChain`.  Events (`Ev`): block delivery, verification message, restart.
 
-1. `invalid_never_stored`, `invalid_answers_err` — a rule-breaking block is refused untouched.
+1. `invalid_refused_by_saveBlock`, `invalid_orphan_dropped`, `invalid_never_stored`,
+   `invalid_answers_err` — a rule-breaking block is refused untouched at both call sites of saveBlock.
 2. `main_chain_moves_only_with_ledger`, `main_chain_applied`, `attached_blocks_apply`,
    `attached_inputs_spendable` and the four spend rules — the best block / index / utxo set move
    only together and only through a `ledgerReorg` in which every attached block's transactions
    pass `applyBlockTxs`.
-3. `connected_implies_rules` — every main-chain block of a reachable state passed `validBlock`
-   when it was saved and `applyBlockTxs` when it was attached (parents-first deliveries: the
-   model does not re-validate blocks that wait in the orphan pool).
+3. `connected_implies_rules`, `stored_implies_validated` — for EVERY event sequence (any delivery
+   order): every stored block passed `validBlock` at the moment `saveBlock` stored it (after its
+   own delivery or when it left the orphan pool), every main-chain block additionally passed
+   `applyBlockTxs` when it was attached; `always_invalid_never_stored`.
 4. completeness: `valid_block_stored`, `c13_valid_accepted_partial`; the full statement
    `c13_valid_accepted_full` is refuted by the F32 witness.
 -/
@@ -26,21 +28,43 @@ open BytomModel.Node BytomModel.Ledger BytomModel.NodeLedger BytomModel.Lemmas.C
 
 /-! ## 1. a block that breaks a `ValidateBlock` rule is refused before anything is touched -/
 
+/-- `Chain.saveBlock` refuses a block that fails `validBlock` before anything is touched — at
+    BOTH call sites (after the block's own delivery, and when it leaves the orphan pool), in
+    whatever node state `n` the call happens -/
+theorem invalid_refused_by_saveBlock (env : NodeLedger.State) (n : Node.State) (b : Header)
+    (hv : env.validIn n b = false) : env.saveBlockVn n b = (n, false) := by
+  rcases saveBlockVn_cases env n b with ⟨_, e⟩ | ⟨ht, _⟩
+  · exact e
+  · rw [hv] at ht; cases ht
+
+/-- an invalid block that waited in the orphan pool is dropped from the pool when its turn comes
+    (its parent has been stored): nothing else changes — the step of `saveSubBlock` for it is
+    `OrphanManage.Delete` -/
+theorem invalid_orphan_dropped (env : NodeLedger.State) (fuel : Nat) (st : Node.State) (o : Nat) (ob : Header)
+    (hl : lookupHeader st.orphans o = some ob) (hv : env.validIn st ob = false) :
+    subStepV env fuel st o = st.orphanDelete o ∧ (subStepV env fuel st o).headers = st.headers := by
+  have e : subStepV env fuel st o = st.orphanDelete o := by
+    unfold subStepV
+    rw [hl]
+    simp only [invalid_refused_by_saveBlock env st ob hv, if_true]
+  exact ⟨e, by rw [e, orphanDelete_headers]⟩
+
 /-- a block delivered when its parent is stored and `validBlock` is false leaves the whole state
     (store, checkpoint tree, orphan pool, ledger) unchanged -/
 theorem invalid_never_stored (s : NodeLedger.State) (b : Header)
     (hp : (s.node.header b.parent).isSome = true) (hv : s.validBlock b = false) :
     (s.processBlock b).1 = s := by
-  rw [processBlock_eq]
-  cases hk : alreadyProcessed s.node b with
-  | false => simp [hp, hv]
-  | true =>
-    simp only [Bool.not_true, Bool.false_and, Bool.false_eq_true, if_false]
-    rcases node_processBlock_cases s.node b with ⟨_, e⟩ | ⟨h, _⟩ | ⟨h, _⟩ | ⟨h, _⟩
-    · unfold State.settle
-      rw [e]
-      simp
-    all_goals (rw [hk] at h; cases h)
+  have hsv := invalid_refused_by_saveBlock s s.node b (by rw [validIn_self]; exact hv)
+  rw [processBlock_eq_settle]
+  have hn : (s.chainProcessBlock b).1 = s.node := by
+    rcases chainProcessBlock_cases s b with ⟨_, e⟩ | ⟨_, hn, _⟩ | ⟨_, _, _, e⟩ | ⟨_, _, ht, _⟩
+    · exact e
+    · rw [Option.isNone_iff_eq_none] at hn; rw [hn] at hp; cases hp
+    · rw [e, hsv]
+    · rw [hsv] at ht; cases ht
+  unfold State.settle
+  rw [hn]
+  simp
 
 /-- … and the answer is an error, unless the hash is already known (stored or waiting) and not
     above the best height — the "block has been processed" early exit, which answers without
@@ -49,8 +73,17 @@ theorem invalid_answers_err (s : NodeLedger.State) (b : Header)
     (hp : (s.node.header b.parent).isSome = true) (hv : s.validBlock b = false)
     (hk : alreadyProcessed s.node b = false) :
     s.processBlock b = (s, .err) := by
-  rw [processBlock_eq]
-  simp [hp, hv, hk]
+  have hsv := invalid_refused_by_saveBlock s s.node b (by rw [validIn_self]; exact hv)
+  rw [processBlock_eq_settle]
+  have hn : s.chainProcessBlock b = (s.node, .err) := by
+    rcases chainProcessBlock_cases s b with ⟨h1, _⟩ | ⟨_, hn, _⟩ | ⟨_, _, _, e⟩ | ⟨_, _, ht, _⟩
+    · rw [hk] at h1; cases h1
+    · rw [Option.isNone_iff_eq_none] at hn; rw [hn] at hp; cases hp
+    · rw [e, hsv]
+    · rw [hsv] at ht; cases ht
+  rw [hn]
+  unfold State.settle
+  simp
 
 /-- a refused block is not stored by the refusal -/
 theorem invalid_not_stored_by_delivery (s : NodeLedger.State) (b : Header)
@@ -185,23 +218,21 @@ theorem context_invalid_block_not_connected (s : NodeLedger.State) (b : Header)
 
 /-! ## 3. every main-chain block passed the rules -/
 
-/-- For every history delivered parents-first from a state without orphans: every entry of the
-    main-chain index of the reached state is an initial entry, or its block (a) was attached by a
-    move in which it passed `applyBlockTxs` at its turn, and (b) is a block stored at the start or
-    one that passed `validBlock`, with its parent stored, when it was delivered and saved.
-
-    Hypothesis `ParentsFirst`: no block is delivered while its parent is unknown. The model does
-    not re-validate a block when it leaves the orphan pool (the real `saveBlock` does), so for
-    such blocks the model has no validation event to point at. -/
-theorem connected_implies_rules (init : NodeLedger.State) (evs : List Ev)
-    (hno : NoOrphans init) (hpf : ParentsFirst init evs) :
+/-- For EVERY history — any delivery order: children before parents, invalid blocks before or
+    after their ancestors, verification messages and restarts in between — every entry of the
+    main-chain index of the reached state is an initial entry, or its block
+    (a) was attached by a move in which it passed `applyBlockTxs` at its turn (the ledger rules), and
+    (b) is a block stored at the start, or `StoredValid`: it had reached the node (delivered, or
+        waiting in the pool), and `saveBlock` stored it — after its own delivery or when it left
+        the orphan pool — in a node state with its parent stored in which `validBlock` was true. -/
+theorem connected_implies_rules (init : NodeLedger.State) (evs : List Ev) :
     ∀ p, p ∈ (run init evs).node.index →
       p ∈ init.node.index ∨
       (∃ pre e suf att det before a after, evs = pre ++ e :: suf ∧ att = before ++ a :: after ∧ a.id = p.2 ∧
           Moved (run init pre) (step (run init pre) e) att det ∧
           (∃ vb v', applyBlockTxs (run init pre).params a.height true ((run init pre).txsOf a.id)
               (loadSpent (run init pre).utxo ((run init pre).txsOf a.id) vb) = some v') ∧
-          ((∃ h0, h0 ∈ init.node.headers ∧ h0.id = p.2) ∨ Validated init evs p.2)) := by
+          ((∃ h0, h0 ∈ init.node.headers ∧ h0.id = p.2) ∨ StoredValid init evs p.2)) := by
   intro p hp
   rcases run_index evs init p hp with h | ⟨pre, e, suf, att, det, a, h1, h2, h3, h4⟩
   · left; exact h
@@ -211,26 +242,46 @@ theorem connected_implies_rules (init : NodeLedger.State) (evs : List Ev)
     -- the attached block is stored right after the move; stored headers were validated
     have hst : a ∈ (run init (pre ++ [e])).node.headers := by
       rw [run_snoc]; exact h2.att_stored a h3
-    have hpf' : ParentsFirst init (pre ++ [e]) := by
-      apply ParentsFirst.prefix (b := suf)
-      rw [List.append_assoc]; exact h1 ▸ hpf
-    rcases (run_headers (pre ++ [e]) init hno hpf').2 a hst with h5 | h5
+    rcases run_headers (pre ++ [e]) init a hst with h5 | h5
     · left; rw [← h4]; exact h5
     · right
       rw [← h4, h1, show pre ++ e :: suf = (pre ++ [e]) ++ suf by simp]
       exact h5.append suf
 
-/-- along such a history no block ever waits in the orphan pool -/
-theorem parents_first_no_orphans (init : NodeLedger.State) (evs : List Ev)
-    (hno : NoOrphans init) (hpf : ParentsFirst init evs) : NoOrphans (run init evs) :=
-  (run_headers evs init hno hpf).1
-
-/-- every stored block of such a history is an initial one or passed `validBlock` on delivery -/
-theorem stored_implies_validated (init : NodeLedger.State) (evs : List Ev)
-    (hno : NoOrphans init) (hpf : ParentsFirst init evs) :
+/-- every stored block of every history is an initial one or was `StoredValid`: it passed
+    `validBlock` at the moment it was stored. Contrapositive: a block that fails `validBlock`
+    whenever `saveBlock` looks at it is never stored, no matter when it arrives relative to its
+    ancestors -/
+theorem stored_implies_validated (init : NodeLedger.State) (evs : List Ev) :
     ∀ h, h ∈ (run init evs).node.headers →
-      (∃ h0, h0 ∈ init.node.headers ∧ h0.id = h.id) ∨ Validated init evs h.id :=
-  (run_headers evs init hno hpf).2
+      (∃ h0, h0 ∈ init.node.headers ∧ h0.id = h.id) ∨ StoredValid init evs h.id :=
+  run_headers evs init
+
+/-- a block that is invalid in every node state is never stored by any history (unless a block
+    of that id was stored at the start) -/
+theorem always_invalid_never_stored (init : NodeLedger.State) (evs : List Ev) (id : Nat)
+    (hinit : ∀ h0, h0 ∈ init.node.headers → h0.id ≠ id)
+    (hbad : ∀ (s : NodeLedger.State) (n : Node.State) (x : Header), Static init s → x.id = id → s.validIn n x = false) :
+    ∀ h, h ∈ (run init evs).node.headers → h.id ≠ id := by
+  intro h hh e
+  rcases run_headers evs init h hh with ⟨h0, hm, hid⟩ | ⟨pre, b, suf, n, x, _, h2, _, _, _, _, h7⟩
+  · exact hinit h0 hm (hid.trans e)
+  · rw [hbad (run init pre) n x (run_static init pre) (h2.trans e)] at h7
+    cases h7
+
+/-- every block in the orphan pool of every reached state has been delivered -/
+theorem pool_holds_delivered_blocks (init : NodeLedger.State) (evs : List Ev) :
+    ∀ x, x ∈ (run init evs).node.orphans → WasDelivered init evs x :=
+  run_orphans evs init
+
+/-- the validating chain core coincides with `Model/Node.lean`'s `processBlock` whenever the
+    delivered block and the waiting blocks are valid when validated — so every theorem about
+    `Node.State.processBlock` (C10, C11, C12, C16 …) speaks about the node with ledger; e.g. on
+    every stream that records no validation meta data -/
+theorem processBlock_eq_node (s : NodeLedger.State) (b : Header) (hvb : s.validBlock b = true)
+    (hv : ∀ x, x ∈ s.node.orphans → ∀ n, s.validIn n x = true) :
+    s.processBlock b = s.settle (s.node.processBlock b).1 (s.node.processBlock b).2 := by
+  rw [processBlock_eq_settle, BytomModel.Lemmas.C13.processBlock_eq_node s b hvb hv]
 
 /-! ## 4. valid blocks are accepted -/
 
@@ -309,25 +360,20 @@ theorem c13_valid_accepted_partial (s : NodeLedger.State) (b : Header) (hve : Va
 
 /-! ## the hypotheses are satisfiable (tests on the witness history) -/
 
-/-- `ParentsFirst`, `NoOrphans`: the witness history is delivered parents-first from genesis -/
-example : NoOrphans Witness.init ∧ ParentsFirst Witness.init Witness.history := by
-  refine ⟨⟨rfl, rfl⟩, ?_⟩
-  intro pre b suf h
-  -- the four deliveries
-  match pre, h with
-  | [], h => injection h with h1 _; injection h1 with h1; subst h1; decide +kernel
-  | [_], h =>
-    injection h with h0 h; injection h with h1 _; subst h0; injection h1 with h1; subst h1; decide +kernel
-  | [_, _], h =>
-    injection h with h0 h; injection h with h0' h; injection h with h1 _; subst h0; subst h0'
-    injection h1 with h1; subst h1; decide +kernel
-  | [_, _, _], h =>
-    injection h with h0 h; injection h with h0' h; injection h with h0'' h; injection h with h1 _
-    subst h0; subst h0'; subst h0''; injection h1 with h1; subst h1; decide +kernel
-  | _ :: _ :: _ :: _ :: _ :: _, h =>
-    injection h with _ h; injection h with _ h; injection h with _ h; injection h with _ h; cases h
-  | [_, _, _, _], h =>
-    injection h with _ h; injection h with _ h; injection h with _ h; injection h with _ h; cases h
+/-- out of order: b2 arrives before b1 (waits in the pool), b1 connects both; the invalid `bx`
+    (child of b1 with a wrong height) arrives first of all and is dropped when b1 arrives — it is
+    never stored and does not stay in the pool -/
+example :
+    let s := run Witness.init [.deliver Witness.bx, .deliver Witness.b2, .deliver Witness.b1]
+    (s.node.header 1).isSome = true ∧ (s.node.header 2).isSome = true ∧ (s.node.header 6).isSome = false ∧
+    s.node.orphans.isEmpty = true ∧ s.node.best = 2 ∧
+    (run Witness.init [.deliver Witness.bx, .deliver Witness.b2]).node.orphans.length = 2 := by
+  decide +kernel
+
+/-- `processBlock_eq_node`'s hypothesis holds on states without validation meta data -/
+example (s : NodeLedger.State) (b : Header) (hm : s.metas = []) :
+    s.processBlock b = s.settle (s.node.processBlock b).1 (s.node.processBlock b).2 :=
+  processBlock_eq_node s b (validIn_of_no_metas s hm s.node b) (fun x _ n => validIn_of_no_metas s hm n x)
 
 /-- `ValidExtension` + fork choice selects the block: delivering b3 after b1, b2 (a valid block
     with a reward coinbase) -/
